@@ -697,6 +697,11 @@ def oracle_c17(run, A, V):
 
 
 def oracle_c16(run, A, V):
+    for ch in run.chunks:
+        for e in ch["events"]:
+            if e[0] == "concurrent-send":
+                V("socket-written-by-two-threads", "thread %s writes to the connection while %s is (about to be) inside its own write: "
+                  "the bytes of the two lines can interleave" % (e[1], ",".join(e[2])))
     if run.status != "quiescent":
         return
     sent_lines = "".join(A.sent).split("\r\n")
